@@ -26,6 +26,10 @@ type Profile struct {
 	// known finding (C14 catch-exit-skips-finally): no jump and no call inside a catch
 	// clause of a do expression that also has a finally clause
 	NoExitFromCatchWithFinally bool
+	// known finding (C14 catch-keeps-pending-operands): a catch handler does not restore the operand
+	// stack depth, so a do expression with catch clauses is not generated inside a catch clause or a
+	// finally block of the same function (its stale operands would corrupt the enclosing handler)
+	NoCatchInsideHandler bool
 }
 
 var Control = Profile{Closures: true, Throw: true, Defer: true, Labels: true, Methods: true, Lists: true, ShortCirc: true, MaxStmts: 45, MaxDepth: 4, LoopBound: 3, ClosureBias: 1}
@@ -47,6 +51,7 @@ type fnCtx struct {
 	noCalls   int // > 0: no method / closure calls are generated
 	isFn      bool
 	noReturn  bool // body must not contain `return` (the method does not return Int)
+	inHandler int  // > 0: inside a catch clause or a finally block
 }
 
 type G struct {
@@ -64,7 +69,8 @@ type G struct {
 	// exclude names a variable that vars() must not return (see makeConditional)
 	exclude string
 	// Restricted counts catch clauses generated under the NoExitFromCatchWithFinally restriction
-	Restricted int
+	Restricted        int
+	RestrictedPending int
 }
 
 func (g *G) draw(n int, label string) int    { return vgen.Pick(g.t, n, label) }
@@ -127,6 +133,7 @@ func Gen(t *rapid.T, p Profile) *Program {
 	prog.UsesDeep = g.usesDeep
 	prog.UsesTr = g.usesTr
 	prog.Restricted = g.Restricted
+	prog.RestrictedPending = g.RestrictedPending
 	return prog
 }
 
@@ -589,6 +596,10 @@ func (g *G) doCatch(depth int) []*N {
 	}
 	n.B = append(n.B, tail(g.block(rapid.IntRange(1, 4).Draw(g.t, "ndo"), depth+1, false)))
 	nc := g.draw(3, "ncatch")
+	if g.p.NoCatchInsideHandler && g.fn().inHandler > 0 && nc > 0 {
+		nc = 0
+		g.RestrictedPending++
+	}
 	hasFinally := nc == 0 || g.chance(2, "fin")
 	for i := 0; i < nc; i++ {
 		cl := &N{}
@@ -626,7 +637,9 @@ func (g *G) doCatch(depth int) []*N {
 			g.fn().noCalls++
 			g.Restricted++
 		}
+		g.fn().inHandler++
 		n.B = append(n.B, tail(g.block(rapid.IntRange(1, 3).Draw(g.t, "ncb"), depth+1, true)))
+		g.fn().inHandler--
 		if restrict {
 			g.fn().inFinally--
 			g.fn().noCalls--
@@ -636,7 +649,9 @@ func (g *G) doCatch(depth int) []*N {
 	if hasFinally {
 		n.I = 1
 		g.fn().inFinally++
+		g.fn().inHandler++
 		n.B = append(n.B, g.block(rapid.IntRange(1, 2).Draw(g.t, "nfin"), depth+1, false))
+		g.fn().inHandler--
 		g.fn().inFinally--
 	}
 	if asExpr {
